@@ -531,16 +531,21 @@ Proof. reflexivity. Qed.
 (* ---------- the simulation invariant ---------- *)
 Definition Fmap := key -> option N.   (* proof-only ghost: the content first stored under a key *)
 
-Record InvU (F : Fmap) (s : state) (g : ghost) : Prop := {
+Definition duty_of (k : key) : duty := (dt_of (k_kind k), k_slot k).
+
+Record InvU (F : Fmap) (a : option (duty * status)) (s : state) (g : ghost) : Prop := {
   u1 : forall k v, lookup k (vals (st_db s)) = Some v -> F k = Some (v_cid v);
   u2 : forall q k c, In (q, k, c) (outbox s) -> F k = Some c;
   u3 : forall k c, In (k, c) (g_ans g) -> F k = Some c;
   u4 : forall k c, F k = Some c -> lookup k (vals (st_db s)) <> None \/ In (dt_of (k_kind k), k_slot k) (g_dead g);
   u5 : forall b p, In (b, p) (abk (st_db s)) -> b = fst (fst p);
-  u6 : forall d, In d (expq s) -> In d (g_dead g)
+  u6 : forall d, In d (expq s) -> In d (g_dead g);
+  (* a Store that got the verdict Scheduled and has not written yet: no key of its duty that was ever
+     stored is absent (its expiry cannot have been processed before the verdict) *)
+  u7 : forall d, a = Some (d, Scheduled) -> forall k c, F k = Some c -> lookup k (vals (st_db s)) = None -> duty_of k <> d
 }.
 
-Record Inv (s : state) (g : ghost) : Prop := {
+Record Inv (a : option (duty * status)) (s : state) (g : ghost) : Prop := {
   a1 : forall k v, lookup k (vals (st_db s)) = Some v -> In (k, v_cid v) (g_off g);
   a2 : forall q k c, In (q, k, c) (outbox s) -> In (q, k) (g_pend g) /\ In (k, c) (g_off g);
   a3 : forall q k, In (q, k) (g_pend g) -> In (q, k) (pend s) \/ exists c, In (q, k, c) (outbox s);
@@ -550,10 +555,10 @@ Record Inv (s : state) (g : ghost) : Prop := {
   a6 : g_expn g = false -> expq s = [];
   a7 : forall q k, In (q, k) (pend s) -> lookup k (vals (st_db s)) <> None -> In (k_kind k) (g_dirty g);
   a8 : forall k p, lookup_pk k (pks (st_db s)) = Some p -> In (k, p) (g_offpk g);
-  au : g_disc g = true -> exists F, InvU F s g
+  au : g_disc g = true -> exists F, InvU F a s g
 }.
 
-Lemma inv_init : Inv init ginit.
+Lemma inv_init : Inv None init ginit.
 Proof.
   constructor; simpl; intros; try contradiction; try discriminate; try reflexivity.
   exists (fun _ => None). constructor; simpl; intros; try contradiction; discriminate.
@@ -577,9 +582,9 @@ Qed.
 
 (* phase 1 of a Store that passed the deadline check: the visited entries were written *)
 Lemma store_phase s g t sl vis d' kd :
-  Inv s g -> kind_of_dt t = Some kd ->
+  Inv (Some ((t, sl), Scheduled)) s g -> kind_of_dt t = Some kd ->
   ext (flat_map (offers_v t) vis) (flat_map (offers_pk t) vis) (flat_map (offers_b t) vis) (st_db s) d' ->
-  Inv (mk d' (pend s) (outbox s) (expq s))
+  Inv None (mk d' (pend s) (outbox s) (expq s))
       (mkg (g_pend g) (flat_map (offers t) vis ++ g_off g) (flat_map (offers_pk t) vis ++ g_offpk g) (g_ans g) (g_dead g)
            (g_disc g && store_disc g (t, sl) Scheduled vis) (g_must g) (g_prov g) (g_expn g) (kd :: g_dirty g)).
 Proof.
@@ -596,24 +601,21 @@ Proof.
       destruct (x_new _ _ _ _ _ X _ _ Ev) as [H3|[_ H3]]; [congruence|].
       apply in_flat_map in H3. destruct H3 as [e [_ H3]]. apply offers_v_kind in H3. congruence.
   - intros k p H. apply in_or_app. destruct (x_pnew _ _ _ _ _ X _ _ H) as [H1|H1]; [right; apply A8; exact H1|left; exact H1].
-  - intro Hd. apply andb_true_iff in Hd. destruct Hd as [Hd Hs].
-    apply andb_true_iff in Hs. destruct Hs as [Hnd Hsl].
-    destruct (AU Hd) as [F [U1 U2 U3 U4 U5 U6]]. simpl in *.
-    assert (Hdead : ~ In (t, sl) (g_dead g)).
-    { intro Hin. apply in_duties_In in Hin. rewrite Hin in Hnd. discriminate. }
+  - intro Hd. apply andb_true_iff in Hd. destruct Hd as [Hd Hsl].
+    destruct (AU Hd) as [F [U1 U2 U3 U4 U5 U6 U7]]. simpl in *.
     assert (Hnew : forall k v, lookup k (vals (st_db s)) = None -> lookup k (vals d') = Some v ->
-                   (dt_of (k_kind k), k_slot k) = (t, sl)).
+                   duty_of k = (t, sl)).
     { intros k v H1 H2. destruct (x_new _ _ _ _ _ X _ _ H2) as [H3|[_ H3]]; [congruence|].
       apply in_flat_map in H3. destruct H3 as [e [He H3]].
       rewrite forallb_forall in Hsl. specialize (Hsl _ He).
-      rewrite (offers_v_slot _ _ _ _ _ Hsl H3). apply offers_v_kind in H3.
+      unfold duty_of. rewrite (offers_v_slot _ _ _ _ _ Hsl H3). apply offers_v_kind in H3.
       rewrite Hk in H3. injection H3 as <-. rewrite (kind_of_dt_inv _ _ Hk). reflexivity. }
     exists (fun k => match F k with Some c => Some c | None => option_map v_cid (lookup k (vals d')) end).
     constructor; simpl.
     + intros k v H. destruct (F k) as [c|] eqn:EF; [|rewrite H; reflexivity].
       destruct (lookup k (vals (st_db s))) as [w|] eqn:Ew.
       * rewrite (x_mono _ _ _ _ _ X _ _ Ew) in H. injection H as <-. rewrite (U1 _ _ Ew) in EF. symmetry. exact EF.
-      * destruct (U4 _ _ EF) as [H1|H1]; [congruence|]. rewrite (Hnew _ _ Ew H) in H1. contradiction.
+      * exfalso. apply (U7 _ eq_refl _ _ EF Ew). apply Hnew with v; assumption.
     + intros q k c H. rewrite (U2 _ _ _ H). reflexivity.
     + intros k c H. rewrite (U3 _ _ H). reflexivity.
     + intros k c H. destruct (F k) as [c0|] eqn:EF.
@@ -624,6 +626,7 @@ Proof.
       rewrite forallb_forall in Hsl. specialize (Hsl _ He).
       destruct (offers_b_slot _ _ _ _ _ Hsl H1) as [-> ->]. reflexivity.
     + exact U6.
+    + intros d0 E. discriminate E.
 Qed.
 
 Lemma drop_kind_In kd x l : In x (drop_kind kd l) <-> In x l /\ x <> kd.
@@ -634,10 +637,10 @@ Proof.
 Qed.
 
 (* phase 2: resolve<kd>QueriesUnsafe *)
-Lemma resolve_phase s g kd newm :
-  Inv s g ->
+Lemma resolve_phase a s g kd newm :
+  Inv a s g ->
   (forall q, In q newm -> exists k, In (q, k) (g_pend g) /\ k_kind k = kd /\ lookup k (vals (st_db s)) <> None) ->
-  Inv (do_resolve kd s)
+  Inv a (do_resolve kd s)
       (mkg (g_pend g) (g_off g) (g_offpk g) (g_ans g) (g_dead g) (g_disc g) (newm ++ g_must g) (g_prov g) (g_expn g)
            (drop_kind kd (g_dirty g))).
 Proof.
@@ -660,16 +663,16 @@ Proof.
     + destruct (A4 _ H) as [k [c H1]]. exists k, c. apply in_or_app. left. exact H1.
   - intros q k H1 H2. destruct (R2 _ _ H1) as [H3 H4]. apply drop_kind_In. split; [eapply A7; eassumption|].
     intro E. apply H4 in E. contradiction.
-  - intro Hd. destruct (AU Hd) as [F [U1 U2 U3 U4 U5 U6]]. exists F. constructor; simpl; auto.
+  - intro Hd. destruct (AU Hd) as [F [U1 U2 U3 U4 U5 U6 U7]]. exists F. constructor; simpl; auto.
     intros q k c H. apply in_app_or in H. destruct H as [H|H]; [eapply U2; exact H|].
     destruct (R3 _ _ _ H) as [_ [_ [v [H2 ->]]]]. apply U1. exact H2.
 Qed.
 
 (* phase 3: the drain loop over deadliner.C() *)
 Lemma drain_phase s g d2 q2 er newp :
-  Inv s g -> drain (expq s) (st_db s) = (d2, q2, er) ->
+  Inv None s g -> drain (expq s) (st_db s) = (d2, q2, er) ->
   (forall k, In k newp -> lookup k (vals (st_db s)) <> None) ->
-  Inv (mk d2 (pend s) (outbox s) q2)
+  Inv None (mk d2 (pend s) (outbox s) q2)
       (mkg (g_pend g) (g_off g) (g_offpk g) (g_ans g) (g_dead g) (g_disc g) (g_must g)
            (if g_expn g then [] else newp ++ g_prov g) (match er with None => false | _ => g_expn g end) (g_dirty g)).
 Proof.
@@ -683,13 +686,14 @@ Proof.
     rewrite (A6 H) in HD. rewrite drain_nil in HD. discriminate.
   - intros q k H1 H2. eapply A7; [exact H1|]. destruct (lookup k (vals d2)) as [v|] eqn:E; [|congruence].
     rewrite (D1 _ _ E). discriminate.
-  - intro Hd. destruct (AU Hd) as [F [U1 U2 U3 U4 U5 U6]]. exists F. constructor; simpl; auto.
+  - intro Hd. destruct (AU Hd) as [F [U1 U2 U3 U4 U5 U6 U7]]. exists F. constructor; simpl; auto.
     + intros k c H. destruct (U4 _ _ H) as [H1|H1]; [|right; exact H1].
       destruct (lookup k (vals (st_db s))) as [v|] eqn:Ev; [|congruence].
       destruct (lookup k (vals d2)) as [w|] eqn:Ew; [left; discriminate|].
       right. destruct (D7 _ _ Ev Ew) as [H2|[Hk [sl [p [H3 [H4 H5]]]]]].
       * apply U6. exact H2.
       * rewrite Hk. simpl. rewrite H5. rewrite <- (U5 _ _ H4). apply U6. exact H3.
+    + intros d0 E. discriminate E.
 Qed.
 
 Lemma drop_kind_cons_same kd l : drop_kind kd (kd :: l) = drop_kind kd l.
@@ -716,10 +720,10 @@ Proof.
 Qed.
 
 (* a reader returned (answer or cancellation): its query disappears everywhere *)
-Lemma return_phase s g q ans :
-  Inv s g ->
+Lemma return_phase a s g q ans :
+  Inv a s g ->
   (forall k c, In (k, c) ans -> exists q', In (q', k, c) (outbox s)) ->
-  Inv (mk (st_db s) (drop_q q (pend s)) (filter (fun x => negb (N.eqb (fst (fst x)) q)) (outbox s)) (expq s))
+  Inv a (mk (st_db s) (drop_q q (pend s)) (filter (fun x => negb (N.eqb (fst (fst x)) q)) (outbox s)) (expq s))
       (mkg (drop_q q (g_pend g)) (g_off g) (g_offpk g) (ans ++ g_ans g) (g_dead g) (g_disc g)
            (drop_n q (g_must g)) (g_prov g) (g_expn g) (g_dirty g)).
 Proof.
@@ -734,7 +738,7 @@ Proof.
   - intros q' H. apply drop_n_In in H. destruct H as [H Hq]. destruct (A4 _ H) as [k [c H1]].
     exists k, c. apply drop_out_In. split; [exact H1|exact Hq].
   - intros q' k H. apply drop_q_In in H. destruct H as [H _]. apply (A7 q'). exact H.
-  - intro Hd. destruct (AU Hd) as [F [U1 U2 U3 U4 U5 U6]]. exists F. constructor; simpl; auto.
+  - intro Hd. destruct (AU Hd) as [F [U1 U2 U3 U4 U5 U6 U7]]. exists F. constructor; simpl; auto.
     + intros q' k c H. apply drop_out_In in H. destruct H as [H _]. eapply U2. exact H.
     + intros k c H. apply in_app_or in H. destruct H as [H|H]; [|apply U3; exact H].
       destruct (Ha _ _ H) as [q' H1]. eapply U2. exact H1.
@@ -743,29 +747,51 @@ Qed.
 Lemma state_eta s : mk (st_db s) (pend s) (outbox s) (expq s) = s.
 Proof. destruct s; reflexivity. Qed.
 
-Lemma inv_weaken_disc s g b :
-  Inv s g ->
-  Inv s (mkg (g_pend g) (g_off g) (g_offpk g) (g_ans g) (g_dead g) (g_disc g && b) (g_must g) (g_prov g) (g_expn g) (g_dirty g)).
+Lemma inv_weaken_disc a s g b :
+  Inv a s g ->
+  Inv a s (mkg (g_pend g) (g_off g) (g_offpk g) (g_ans g) (g_dead g) (g_disc g && b) (g_must g) (g_prov g) (g_expn g) (g_dirty g)).
 Proof.
   intros [A1 A2 A3 A3' A4 A5 A6 A7 A8 AU]. constructor; simpl; auto.
-  intro Hd. apply andb_true_iff in Hd. destruct Hd as [Hd _]. destruct (AU Hd) as [F [U1 U2 U3 U4 U5 U6]].
+  intro Hd. apply andb_true_iff in Hd. destruct Hd as [Hd _]. destruct (AU Hd) as [F [U1 U2 U3 U4 U5 U6 U7]].
   exists F. constructor; simpl; auto.
 Qed.
 
 Lemma entry_err_not_resolved er : entry_err er = true -> resolved_res (Some er) = false /\ er <> ERefused.
 Proof. destruct er; simpl; intro H; try discriminate; split; try reflexivity; discriminate. Qed.
 
-Lemma step_sound s g l s' :
-  Inv s g -> step s l = Some s' -> check g l = true /\ Inv s' (gstep g l).
+Lemma inv_clear a s g : Inv a s g -> Inv None s g.
 Proof.
-  intros I Hs. destruct l as [[t sl] st vis unv res|q k|q k c|q|d|slot comm vidx r|];
-    cbv beta iota delta [step step_gen] in Hs.
+  intros [A1 A2 A3 A3' A4 A5 A6 A7 A8 AU]. constructor; auto.
+  intro Hd. destruct (AU Hd) as [F [U1 U2 U3 U4 U5 U6 U7]]. exists F. constructor; auto.
+  intros d0 E. discriminate E.
+Qed.
+
+(* which Store is inside its critical section after label l *)
+Definition next_add (a : option (duty * status)) (l : label) : option (duty * status) :=
+  match l with
+  | LAdd d st => Some (d, st)
+  | LStore _ _ _ _ _ | LAwaitReg _ _ | LPubKey _ _ _ _ => None
+  | _ => a
+  end.
+Definition add_ok (a : option (duty * status)) (l : label) : Prop :=
+  match l with
+  | LStore d st _ _ _ => a = Some (d, st)
+  | LAdd _ _ | LAwaitReg _ _ | LPubKey _ _ _ _ => a = None
+  | _ => True
+  end.
+
+Lemma core_sound a s g l s' :
+  Inv a s g -> add_ok a l -> core_step false s l = Some s' -> check g l = true /\ Inv (next_add a l) s' (gstep g l).
+Proof.
+  intros I Hok Hs. destruct l as [[t sl] st vis unv res|q k|q k c|q|d|slot comm vidx r| |da sta];
+    cbv beta iota delta [core_step] in Hs; cbv beta iota delta [next_add]; cbv beta iota delta [add_ok] in Hok.
   - (* LStore *)
+    subst a.
     assert (Refused : forall (b : bool), (if res_eqb res (Some ERefused) && nil_entries vis then Some s else None) = Some s' ->
                st <> Scheduled -> (match st with Scheduled => b | _ => res_eqb res (Some ERefused) && nil_entries vis end) = true
-               /\ Inv s' (match st with Scheduled => gstep g (LStore (t, sl) Scheduled vis unv res) | _ => g end)).
+               /\ Inv None s' (match st with Scheduled => gstep g (LStore (t, sl) Scheduled vis unv res) | _ => g end)).
     { intros b H Hst. destruct (res_eqb res (Some ERefused) && nil_entries vis) eqn:E; [|discriminate].
-      injection H as <-. destruct st; try contradiction; split; auto. }
+      injection H as <-. destruct st; try contradiction; (split; [reflexivity|eapply inv_clear; exact I]). }
     destruct st.
     + destruct (Refused true Hs) as [H1 H2]; [discriminate|]. split; [exact H1|exact H2].
     + (* Scheduled *)
@@ -798,7 +824,7 @@ Proof.
                 exists k. split; [exact Hq|]. rewrite store_keys_v in Hk. split; [|apply Hp; exact Hk].
                 apply in_map_iff in Hk. destruct Hk as [[k' v] [E Hk]]. simpl in E. subst k'.
                 apply in_flat_map in Hk. destruct Hk as [e [_ Hk]]. apply offers_v_kind in Hk. congruence. }
-              pose proof (resolve_phase s1 _ kd newm P1 Hm) as P2. cbn [g_pend g_off g_offpk g_ans g_dead g_disc g_must g_prov g_expn g_dirty] in P2.
+              pose proof (resolve_phase _ s1 _ kd newm P1 Hm) as P2. cbn [g_pend g_off g_offpk g_ans g_dead g_disc g_must g_prov g_expn g_dirty] in P2.
               rewrite drop_kind_cons_same in P2.
               cbv zeta in Hs.
               destruct (drain (expq (do_resolve kd s1)) (st_db (do_resolve kd s1))) as [[d2 q2] er] eqn:ED.
@@ -820,13 +846,14 @@ Proof.
         injection Hs as <-. apply andb_true_iff in E. destruct E as [E1 E2].
         apply res_eqb_eq in E1. apply nil_entries_nil in E2. subst vis. split.
         -- subst res. destruct t; reflexivity.
-        -- simpl. apply inv_weaken_disc. exact I.
+        -- simpl. eapply inv_clear. apply inv_weaken_disc. exact I.
     + destruct (Refused true Hs) as [H1 H2]; [discriminate|]. split; [exact H1|exact H2].
   - (* LAwaitReg *)
+    subst a.
     destruct (qid_in_pend q (pend s) || qid_in_out q (outbox s)); [discriminate|]. injection Hs as <-.
     split; [reflexivity|].
     set (s1 := mk (st_db s) (pend s ++ [(q, k)]) (outbox s) (expq s)).
-    assert (P1 : Inv s1 (mkg (g_pend g ++ [(q, k)]) (g_off g) (g_offpk g) (g_ans g) (g_dead g) (g_disc g) (g_must g)
+    assert (P1 : Inv None s1 (mkg (g_pend g ++ [(q, k)]) (g_off g) (g_offpk g) (g_ans g) (g_dead g) (g_disc g) (g_must g)
                           (g_prov g) (g_expn g) (k_kind k :: g_dirty g))).
     { destruct I as [A1 A2 A3 A3' A4 A5 A6 A7 A8 AU]. constructor; simpl; auto.
       - intros q' k' c H. destruct (A2 _ _ _ H) as [H1 H2]. split; [apply in_or_app; left; exact H1|exact H2].
@@ -837,13 +864,13 @@ Proof.
       - intros q' k' H H2. apply in_app_or in H. destruct H as [H|[H|[]]].
         + right. eapply A7; eassumption.
         + injection H as <- <-. left. reflexivity.
-      - intro Hd. destruct (AU Hd) as [F [U1 U2 U3 U4 U5 U6]]. exists F. constructor; simpl; auto. }
+      - intro Hd. destruct (AU Hd) as [F [U1 U2 U3 U4 U5 U6 U7]]. exists F. constructor; simpl; auto. }
     set (newm := if in_keys k (g_prov g) then [q] else []).
     assert (Hm : forall q0, In q0 newm -> exists k0, In (q0, k0) (g_pend g ++ [(q, k)]) /\ k_kind k0 = k_kind k /\ lookup k0 (vals (st_db s1)) <> None).
     { intros q0 H. unfold newm in H. destruct (in_keys k (g_prov g)) eqn:E; [|contradiction].
       destruct H as [<-|[]]. exists k. split; [apply in_or_app; right; left; reflexivity|]. split; [reflexivity|].
       apply in_keys_In in E. destruct I. auto. }
-    pose proof (resolve_phase s1 _ (k_kind k) newm P1 Hm) as P2. cbn [g_pend g_off g_offpk g_ans g_dead g_disc g_must g_prov g_expn g_dirty] in P2.
+    pose proof (resolve_phase _ s1 _ (k_kind k) newm P1 Hm) as P2. cbn [g_pend g_off g_offpk g_ans g_dead g_disc g_must g_prov g_expn g_dirty] in P2.
     rewrite drop_kind_cons_same in P2. unfold gstep. unfold newm in P2.
     destruct (in_keys k (g_prov g)); exact P2.
   - (* LAnswer *)
@@ -852,19 +879,20 @@ Proof.
     + unfold check. destruct I as [A1 A2 A3 A3' A4 A5 A6 A7 A8 AU]. destruct (A2 _ _ _ E) as [H1 H2].
       apply andb_true_iff. split; [apply andb_true_iff; split; [apply qk_in_In; exact H1|apply pair_in_In; exact H2]|].
       destruct (g_disc g) eqn:Ed; [|reflexivity]. simpl. apply ans_agree_spec. intros c' Hc.
-      destruct (AU eq_refl) as [F [U1 U2 U3 U4 U5 U6]].
+      destruct (AU eq_refl) as [F [U1 U2 U3 U4 U5 U6 U7]].
       pose proof (U2 _ _ _ E). pose proof (U3 _ _ Hc). congruence.
-    + apply (return_phase s g q [(k, c)] I). intros k' c' [H|[]]. injection H as <- <-. exists q. exact E.
+    + apply (return_phase a s g q [(k, c)] I). intros k' c' [H|[]]. injection H as <- <-. exists q. exact E.
   - (* LCancel *)
     destruct (qid_in_pend q (pend s) || qid_in_out q (outbox s)); [|discriminate]. injection Hs as <-.
-    split; [reflexivity|]. apply (return_phase s g q [] I). intros k' c' [].
+    split; [reflexivity|]. apply (return_phase a s g q [] I). intros k' c' [].
   - (* LExpire *)
     injection Hs as <-. split; [reflexivity|].
     destruct I as [A1 A2 A3 A3' A4 A5 A6 A7 A8 AU]. constructor; simpl; auto; [discriminate|].
-    intro Hd. destruct (AU Hd) as [F [U1 U2 U3 U4 U5 U6]]. exists F. constructor; simpl; auto.
+    intro Hd. destruct (AU Hd) as [F [U1 U2 U3 U4 U5 U6 U7]]. exists F. constructor; simpl; auto.
     + intros k c H. destruct (U4 _ _ H) as [H1|H1]; [left; exact H1|right; right; exact H1].
     + intros d0 H. apply in_app_or in H. destruct H as [H|[H|[]]]; [right; apply U6; exact H|left; exact H].
   - (* LPubKey *)
+    subst a.
     destruct (opt_eqb r (lookup_pk (slot, comm, vidx) (pks (st_db s)))) eqn:E; [|discriminate]. injection Hs as <-.
     split; [|exact I]. unfold check. destruct r as [p|]; [|reflexivity].
     destruct (lookup_pk (slot, comm, vidx) (pks (st_db s))) as [p'|] eqn:El; simpl in E; [|discriminate].
@@ -874,56 +902,95 @@ Proof.
     unfold check. destruct (g_must g) as [|q r] eqn:Em; [reflexivity|].
     destruct I as [A1 A2 A3 A3' A4 A5 A6 A7 A8 AU]. destruct (A4 q) as [k [c H]]; [rewrite Em; left; reflexivity|].
     rewrite Eo in H. contradiction.
+  - (* LAdd: the verdict *)
+    subst a. injection Hs as <-. split; [reflexivity|].
+    destruct I as [A1 A2 A3 A3' A4 A5 A6 A7 A8 AU]. constructor; simpl; auto.
+    intro Hd. apply andb_true_iff in Hd. destruct Hd as [Hd Hv].
+    destruct (AU Hd) as [F [U1 U2 U3 U4 U5 U6 U7]]. exists F. constructor; simpl; auto.
+    intros d0 E k c HF Hl. injection E as <- ->. simpl in Hv. intro Eq.
+    destruct (U4 _ _ HF) as [H1|H1]; [contradiction|]. unfold duty_of in Eq. rewrite Eq in H1.
+    apply in_duties_In in H1. rewrite H1 in Hv. discriminate.
+Qed.
+
+Lemma step_sound a s g l s' a' :
+  Inv a s g -> step (s, a) l = Some (s', a') ->
+  xcheck (g, a) l = true /\ Inv a' s' (gstep g l) /\ xgstep (g, a) l = (gstep g l, a').
+Proof.
+  intros I Hs. unfold step, step_gen in Hs.
+  assert (W : forall b, with_add b (core_step false s l) = Some (s', a') -> core_step false s l = Some s' /\ a' = b).
+  { intros b H. destruct (core_step false s l); [|discriminate]. injection H as <- <-. auto. }
+  destruct l as [d st vis unv res|q k|q k c|q|d|slot comm vidx r| |da sta].
+  - destruct a as [[d' st']|] eqn:Ea; simpl in Hs; [|discriminate].
+    destruct (duty_eqb d' d && status_eqb st' st) eqn:E; [|discriminate].
+    apply andb_true_iff in E. destruct E as [E1 E2]. apply duty_eqb_eq in E1. subst d'.
+    assert (st' = st) by (destruct st', st; try discriminate; reflexivity). subst st'.
+    destruct (W _ Hs) as [Hc ->]. destruct (core_sound _ _ _ (LStore d st vis unv res) _ I eq_refl Hc) as [C I'].
+    split; [|split; [exact I'|reflexivity]]. unfold xcheck. rewrite C. unfold add_eqb.
+    replace (duty_eqb d d) with true by (symmetry; apply duty_eqb_eq; reflexivity).
+    destruct st; reflexivity.
+  - destruct a; simpl in Hs; [discriminate|]. destruct (W _ Hs) as [Hc ->].
+    destruct (core_sound _ _ _ (LAwaitReg q k) _ I eq_refl Hc) as [C I']. split; [exact C|split; [exact I'|reflexivity]].
+  - destruct (W _ Hs) as [Hc ->]. destruct (core_sound _ _ _ (LAnswer q k c) _ I Logic.I Hc) as [C I']. split; [exact C|split; [exact I'|reflexivity]].
+  - destruct (W _ Hs) as [Hc ->]. destruct (core_sound _ _ _ (LCancel q) _ I Logic.I Hc) as [C I']. split; [exact C|split; [exact I'|reflexivity]].
+  - destruct (W _ Hs) as [Hc ->]. destruct (core_sound _ _ _ (LExpire d) _ I Logic.I Hc) as [C I']. split; [exact C|split; [exact I'|reflexivity]].
+  - destruct a; simpl in Hs; [discriminate|]. destruct (W _ Hs) as [Hc ->].
+    destruct (core_sound _ _ _ (LPubKey slot comm vidx r) _ I eq_refl Hc) as [C I']. split; [exact C|split; [exact I'|reflexivity]].
+  - destruct (W _ Hs) as [Hc ->]. destruct (core_sound _ _ _ LQuiet _ I Logic.I Hc) as [C I']. split; [exact C|split; [exact I'|reflexivity]].
+  - destruct a; simpl in Hs; [discriminate|]. injection Hs as <- <-.
+    destruct (core_sound None s g (LAdd da sta) s I eq_refl eq_refl) as [C I']. split; [reflexivity|split; [exact I'|reflexivity]].
 Qed.
 
 (* ---------- main theorem: every trace of the model passes the monitor ---------- *)
-Lemma run_sound ls : forall s g s', Inv s g -> run_gen false s ls = Some s' ->
-  monitor_from g ls = true /\ Inv s' (ghost_after g ls).
+Lemma run_sound ls : forall s a g s' a', Inv a s g -> run_gen false (s, a) ls = Some (s', a') ->
+  monitor_from (g, a) ls = true /\ Inv a' s' (ghost_after g ls) /\ xghost_after (g, a) ls = (ghost_after g ls, a').
 Proof.
-  induction ls as [|l r IH]; intros s g s' I H; simpl in *.
-  - injection H as <-. split; [reflexivity|exact I].
-  - destruct (step_gen false s l) as [s1|] eqn:E; [|discriminate].
-    destruct (step_sound _ _ _ _ I E) as [C I1]. rewrite C. simpl. eapply IH; eassumption.
+  induction ls as [|l r IH]; intros s a g s' a' I H; cbn [run_gen monitor_from ghost_after xghost_after] in *.
+  - injection H as <- <-. split; [reflexivity|split; [exact I|reflexivity]].
+  - destruct (step_gen false (s, a) l) as [[s1 a1]|] eqn:E; [|discriminate].
+    destruct (step_sound _ _ _ _ _ _ I E) as [C [I1 X]]. rewrite C, X. simpl. eapply IH; eassumption.
 Qed.
 
-Theorem run_monitor ls s : run init ls = Some s -> monitor ls = true.
-Proof. intro H. exact (proj1 (run_sound ls _ _ _ inv_init H)). Qed.
+Theorem run_monitor ls x : run xinit ls = Some x -> monitor ls = true.
+Proof. destruct x as [s a]. intro H. exact (proj1 (run_sound ls _ _ _ _ _ inv_init H)). Qed.
 
-Theorem run_inv ls s : run init ls = Some s -> Inv s (ghost_after ginit ls).
-Proof. intro H. exact (proj2 (run_sound ls _ _ _ inv_init H)). Qed.
-
-Lemma run_app a : forall s b s', run_gen false s (a ++ b) = Some s' ->
-  exists s1, run_gen false s a = Some s1 /\ run_gen false s1 b = Some s'.
-Proof.
-  induction a as [|l r IH]; intros s b s' H; simpl in *.
-  - exists s. split; [reflexivity|exact H].
-  - destruct (step_gen false s l) as [s1|]; [|discriminate]. apply IH. exact H.
-Qed.
+Theorem run_inv ls s a : run xinit ls = Some (s, a) -> Inv a s (ghost_after ginit ls).
+Proof. intro H. exact (proj1 (proj2 (run_sound ls _ _ _ _ _ inv_init H))). Qed.
 
 (* ---------- reading the monitor ---------- *)
 Lemma ghost_after_app a : forall g b, ghost_after g (a ++ b) = ghost_after (ghost_after g a) b.
 Proof. induction a as [|l r IH]; intros g b; simpl; [reflexivity|apply IH]. Qed.
 
-Lemma monitor_split a : forall g l b, monitor_from g (a ++ l :: b) = true ->
-  check (ghost_after g a) l = true /\ monitor_from (gstep (ghost_after g a) l) b = true.
+Lemma xcheck_check g a l : xcheck (g, a) l = true -> check g l = true.
 Proof.
-  induction a as [|x r IH]; intros g l b H; simpl in *.
-  - apply andb_true_iff in H. exact H.
-  - apply andb_true_iff in H. destruct H as [_ H]. apply IH. exact H.
+  destruct l; simpl; auto; try (intro H; apply andb_true_iff in H; tauto).
+Qed.
+
+Lemma xgstep_fst g a l : exists a', xgstep (g, a) l = (gstep g l, a').
+Proof. eexists. reflexivity. Qed.
+
+Lemma monitor_split pre : forall g a l post, monitor_from (g, a) (pre ++ l :: post) = true ->
+  check (ghost_after g pre) l = true /\
+  exists a1, xcheck (ghost_after g pre, a1) l = true /\ monitor_from (xgstep (ghost_after g pre, a1) l) post = true.
+Proof.
+  induction pre as [|x r IH]; intros g a l post H; cbn [app monitor_from ghost_after] in *.
+  - apply andb_true_iff in H. destruct H as [H1 H2]. split; [eapply xcheck_check; exact H1|].
+    exists a. split; [exact H1|exact H2].
+  - apply andb_true_iff in H. destruct H as [_ H]. destruct (xgstep_fst g a x) as [a' E]. rewrite E in H. eapply IH. exact H.
 Qed.
 
 Lemma disc_step g l : g_disc (gstep g l) = true -> g_disc g = true.
 Proof.
-  destruct l as [d st vis unv res|q k|q k c|q|d|slot comm vidx r|]; simpl; auto.
-  destruct st; auto. destruct (kind_of_dt (fst d)); [destruct (resolved_res res)|]; simpl; intro H;
-    apply andb_true_iff in H; tauto.
+  destruct l as [d st vis unv res|q k|q k c|q|d|slot comm vidx r| |da sta]; simpl; auto.
+  - destruct st; auto. destruct (kind_of_dt (fst d)); [destruct (resolved_res res)|]; simpl; intro H;
+      apply andb_true_iff in H; tauto.
+  - intro H. apply andb_true_iff in H. tauto.
 Qed.
 Lemma disc_mono ls : forall g, g_disc (ghost_after g ls) = true -> g_disc g = true.
 Proof. induction ls as [|l r IH]; intros g H; simpl in *; [exact H|]. apply disc_step with l. apply IH. exact H. Qed.
 
 Lemma ans_step g l x : In x (g_ans g) -> In x (g_ans (gstep g l)).
 Proof.
-  destruct l as [d st vis unv res|q k|q k c|q|d|slot comm vidx r|]; simpl; auto.
+  destruct l as [d st vis unv res|q k|q k c|q|d|slot comm vidx r| |da sta]; simpl; auto.
   destruct st; auto. destruct (kind_of_dt (fst d)); [destruct (resolved_res res)|]; simpl; auto.
 Qed.
 Lemma ans_mono ls : forall g x, In x (g_ans g) -> In x (g_ans (ghost_after g ls)).
@@ -938,7 +1005,7 @@ Proof.
   replace (pre ++ LAnswer q1 k c1 :: mid ++ LAnswer q2 k c2 :: post)
     with ((pre ++ LAnswer q1 k c1 :: mid) ++ LAnswer q2 k c2 :: post) in *
     by (rewrite <- app_assoc; reflexivity).
-  destruct (monitor_split _ _ _ _ M) as [C _].
+  destruct (monitor_split _ _ _ _ _ M) as [C _].
   rewrite ghost_after_app in D. simpl in D. apply disc_mono in D. simpl in D.
   unfold check in C. rewrite D in C. simpl in C. apply andb_true_iff in C. destruct C as [_ C].
   rewrite ans_agree_spec in C. apply C.
@@ -949,7 +1016,7 @@ Lemma pend_origin ls : forall g q k, In (q, k) (g_pend (ghost_after g ls)) -> In
 Proof.
   induction ls as [|l r IH]; intros g q k H; simpl in *; [left; exact H|].
   destruct (IH _ _ _ H) as [H1|H1]; [|right; right; exact H1].
-  destruct l as [d st vis unv res|q' k'|q' k' c|q'|d|slot comm vidx r'|]; simpl in H1; auto.
+  destruct l as [d st vis unv res|q' k'|q' k' c|q'|d|slot comm vidx r'| |da sta]; simpl in H1; auto.
   - destruct st; auto. destruct (kind_of_dt (fst d)); [destruct (resolved_res res)|]; simpl in H1; auto.
   - apply in_app_or in H1. destruct H1 as [H1|[H1|[]]]; [left; exact H1|]. injection H1 as <- <-. right. left. reflexivity.
   - apply drop_q_In in H1. left. tauto.
@@ -961,7 +1028,7 @@ Lemma off_origin ls : forall g k c, In (k, c) (g_off (ghost_after g ls)) ->
 Proof.
   induction ls as [|l r IH]; intros g k c H; simpl in *; [left; exact H|].
   destruct (IH _ _ _ H) as [H1|[d [vis [unv [res [e [H1 H2]]]]]]]; [|right; exists d, vis, unv, res, e; split; [right; exact H1|exact H2]].
-  destruct l as [d st vis unv res|q' k'|q' k' c'|q'|d|slot comm vidx r'|]; simpl in H1; auto.
+  destruct l as [d st vis unv res|q' k'|q' k' c'|q'|d|slot comm vidx r'| |da sta]; simpl in H1; auto.
   destruct st; auto.
   assert (In (k, c) (flat_map (offers (fst d)) vis ++ g_off g)).
   { destruct (kind_of_dt (fst d)); [destruct (resolved_res res)|]; exact H1. }
@@ -974,7 +1041,7 @@ Lemma offpk_origin ls : forall g k c, In (k, c) (g_offpk (ghost_after g ls)) ->
 Proof.
   induction ls as [|l r IH]; intros g k c H; simpl in *; [left; exact H|].
   destruct (IH _ _ _ H) as [H1|[d [vis [unv [res [e [H1 H2]]]]]]]; [|right; exists d, vis, unv, res, e; split; [right; exact H1|exact H2]].
-  destruct l as [d st vis unv res|q' k'|q' k' c'|q'|d|slot comm vidx r'|]; simpl in H1; auto.
+  destruct l as [d st vis unv res|q' k'|q' k' c'|q'|d|slot comm vidx r'| |da sta]; simpl in H1; auto.
   destruct st; auto.
   assert (In (k, c) (flat_map (offers_pk (fst d)) vis ++ g_offpk g)).
   { destruct (kind_of_dt (fst d)); [destruct (resolved_res res)|]; exact H1. }
@@ -988,7 +1055,7 @@ Theorem answer_facts ls : monitor ls = true ->
   In (LAwaitReg q k) pre /\
   exists d vis unv res e, In (LStore d Scheduled vis unv res) pre /\ In e vis /\ In (k, c) (offers (fst d) e).
 Proof.
-  intros M pre q k c post E. subst ls. destruct (monitor_split _ _ _ _ M) as [C _].
+  intros M pre q k c post E. subst ls. destruct (monitor_split _ _ _ _ _ M) as [C _].
   unfold check in C. rewrite !andb_true_iff in C. destruct C as [[C1 C2] _].
   apply qk_in_In in C1. apply pair_in_In in C2. split.
   - destruct (pend_origin _ _ _ _ C1) as [H|H]; [contradiction|exact H].
@@ -999,7 +1066,7 @@ Theorem pubkey_facts ls : monitor ls = true ->
   forall pre slot comm vidx p post, ls = pre ++ LPubKey slot comm vidx (Some p) :: post ->
   exists d vis unv res e, In (LStore d Scheduled vis unv res) pre /\ In e vis /\ In ((slot, comm, vidx), p) (offers_pk (fst d) e).
 Proof.
-  intros M pre slot comm vidx p post E. subst ls. destruct (monitor_split _ _ _ _ M) as [C _].
+  intros M pre slot comm vidx p post E. subst ls. destruct (monitor_split _ _ _ _ _ M) as [C _].
   unfold check in C. apply pk_in_In in C.
   destruct (offpk_origin _ _ _ _ C) as [H|H]; [contradiction|exact H].
 Qed.
@@ -1009,19 +1076,35 @@ Theorem refused_facts ls : monitor ls = true ->
   forall pre d st vis unv res post, ls = pre ++ LStore d st vis unv res :: post ->
   (st <> Scheduled -> res = Some ERefused /\ vis = []) /\ (st = Scheduled -> res <> Some ERefused).
 Proof.
-  intros M pre d st vis unv res post E. subst ls. destruct (monitor_split _ _ _ _ M) as [C _].
+  intros M pre d st vis unv res post E. subst ls. destruct (monitor_split _ _ _ _ _ M) as [C _].
   unfold check in C. split.
   - intro Hs. destruct st; try contradiction; apply andb_true_iff in C; destruct C as [C1 C2];
       apply res_eqb_eq in C1; apply nil_entries_nil in C2; split; assumption.
   - intros -> E. subst res. discriminate.
 Qed.
 
-Theorem refused_no_change s d st vis unv res s' :
-  step s (LStore d st vis unv res) = Some s' -> st <> Scheduled -> s' = s.
+Lemma step_store_inv s a d st vis unv res s' a' :
+  step (s, a) (LStore d st vis unv res) = Some (s', a') ->
+  core_step false s (LStore d st vis unv res) = Some s' /\ a = Some (d, st) /\ a' = None.
 Proof.
-  destruct d as [t sl]. cbv beta iota delta [step step_gen]. intros H Hs.
+  unfold step, step_gen. destruct a as [[d' st']|]; cbn [add_eqb]; [|intro H; discriminate H].
+  destruct (duty_eqb d' d && status_eqb st' st) eqn:E; [|intro H; discriminate H].
+  apply andb_true_iff in E. destruct E as [E1 E2]. apply duty_eqb_eq in E1. subst d'.
+  assert (st' = st) by (destruct st', st; try discriminate; reflexivity). subst st'.
+  destruct (core_step false s (LStore d st vis unv res)) as [s1|]; cbn [with_add]; [|intro H; discriminate H].
+  intro H. injection H as <- <-. auto.
+Qed.
+
+Lemma refused_no_change_core s d st vis unv res s' :
+  core_step false s (LStore d st vis unv res) = Some s' -> st <> Scheduled -> s' = s.
+Proof.
+  destruct d as [t sl]. cbv beta iota delta [core_step]. intros H Hs.
   destruct st; try contradiction; destruct (res_eqb res (Some ERefused) && nil_entries vis); congruence.
 Qed.
+
+Theorem refused_no_change s a d st vis unv res s' a' :
+  step (s, a) (LStore d st vis unv res) = Some (s', a') -> st <> Scheduled -> s' = s.
+Proof. intros H. apply step_store_inv in H. destruct H as [H _]. eapply refused_no_change_core. exact H. Qed.
 
 (* ---- no lost wake-up, on the trace ---- *)
 Definition returns (q : N) (l : label) : Prop := l = LCancel q \/ exists k c, l = LAnswer q k c.
@@ -1031,15 +1114,15 @@ Definition outstanding (pre : list label) (q : N) (k : key) : Prop := In (q, k) 
 (* k was provided by a successful Store and no deletion can have happened since *)
 Definition provided (pre : list label) (k : key) : Prop := In k (g_prov (ghost_after ginit pre)).
 
-Lemma must_returns mid : forall g q post,
-  In q (g_must g) -> monitor_from g (mid ++ LQuiet :: post) = true -> exists l, In l mid /\ returns q l.
+Lemma must_returns mid : forall g a q post,
+  In q (g_must g) -> monitor_from (g, a) (mid ++ LQuiet :: post) = true -> exists l, In l mid /\ returns q l.
 Proof.
-  induction mid as [|l r IH]; intros g q post Hq M; simpl in M.
+  induction mid as [|l r IH]; intros g a q post Hq M; simpl in M.
   - apply andb_true_iff in M. destruct M as [M _]. destruct (g_must g); [contradiction|discriminate].
   - apply andb_true_iff in M. destruct M as [_ M].
     assert (Keep : In q (g_must (gstep g l)) -> exists l0, In l0 (l :: r) /\ returns q l0).
-    { intro H. destruct (IH _ _ _ H M) as [l0 [H1 H2]]. exists l0. split; [right; exact H1|exact H2]. }
-    destruct l as [d st vis unv res|q' k'|q' k' c'|q'|d|slot comm vidx r'|]; simpl in Keep; auto.
+    { intro H. destruct (IH _ _ _ _ H M) as [l0 [H1 H2]]. exists l0. split; [right; exact H1|exact H2]. }
+    destruct l as [d st vis unv res|q' k'|q' k' c'|q'|d|slot comm vidx r'| |da sta]; simpl in Keep; auto.
     + destruct st; auto. destruct (kind_of_dt (fst d)); [destruct (resolved_res res)|]; simpl in Keep; auto.
       apply Keep. apply in_or_app. right. exact Hq.
     + apply Keep. destruct (in_keys k' (g_prov g)); [right|]; exact Hq.
@@ -1061,7 +1144,7 @@ Theorem wakeup_on_store ls : monitor ls = true ->
     exists l, In l mid /\ returns q l.
 Proof.
   intros M pre d vis unv res mid post q k E Hk Hr Ho Hin. subst ls.
-  destruct (monitor_split _ _ _ _ M) as [_ M2]. eapply must_returns; [|exact M2].
+  destruct (monitor_split _ _ _ _ _ M) as [_ [a1 [_ M2]]]. unfold xgstep in M2. eapply must_returns; [|exact M2].
   unfold gstep. destruct (kind_of_dt (fst d)) as [kd|]; [|contradiction]. rewrite Hr. simpl.
   apply in_or_app. left. apply in_map_iff. exists (q, k). split; [reflexivity|].
   apply filter_In. split; [exact Ho|]. simpl. apply in_keys_In. exact Hin.
@@ -1073,17 +1156,48 @@ Theorem wakeup_on_await ls : monitor ls = true ->
     provided pre k -> exists l, In l mid /\ returns q l.
 Proof.
   intros M pre q k mid post E Hp. subst ls.
-  destruct (monitor_split _ _ _ _ M) as [_ M2]. eapply must_returns; [|exact M2].
+  destruct (monitor_split _ _ _ _ _ M) as [_ [a1 [_ M2]]]. unfold xgstep in M2. eapply must_returns; [|exact M2].
   simpl. apply in_keys_In in Hp. rewrite Hp. left. reflexivity.
 Qed.
 
-(* ---- no lost wake-up, on the state ---- *)
-Theorem stale_only_after_failed_store ls s : run init ls = Some s ->
-  forall q k, In (q, k) (pend s) -> lookup k (vals (st_db s)) <> None -> In (k_kind k) (g_dirty (ghost_after ginit ls)).
-Proof. intros H q k. apply (a7 _ _ (run_inv _ _ H)). Qed.
+(* ---- the verdict and the write are one atomic step ---- *)
+Definition passive (l : label) : Prop :=
+  match l with LExpire _ | LAnswer _ _ _ | LCancel _ | LQuiet => True | _ => False end.
 
-Theorem no_lost_wakeup_store pre t sl vis unv res s kd :
-  run init (pre ++ [LStore (t, sl) Scheduled vis unv res]) = Some s ->
+Lemma passive_keeps mid : forall g a l post, (forall x, In x mid -> passive x) ->
+  monitor_from (g, a) (mid ++ l :: post) = true -> exists g', xcheck (g', a) l = true.
+Proof.
+  induction mid as [|x r IH]; intros g a l post Hp M; cbn [app monitor_from] in M.
+  - apply andb_true_iff in M. destruct M as [M _]. exists g. exact M.
+  - apply andb_true_iff in M. destruct M as [_ M].
+    assert (E : xgstep (g, a) x = (gstep g x, a)).
+    { specialize (Hp x (or_introl eq_refl)). destruct x; try contradiction; reflexivity. }
+    rewrite E in M. eapply IH; [|exact M]. intros y Hy. apply Hp. right. exact Hy.
+Qed.
+
+(* between the deadline verdict of a Store and the end of that Store only events that do not need
+   the lock are observed: the deadliner emitting duties, readers returning *)
+Theorem verdict_write_atomic ls : monitor ls = true ->
+  forall pre d st mid l post, ls = pre ++ LAdd d st :: mid ++ l :: post ->
+  (forall x, In x mid -> passive x) ->
+  passive l \/ exists vis unv res, l = LStore d st vis unv res.
+Proof.
+  intros M pre d st mid l post E Hp. subst ls. unfold monitor, xginit in M.
+  destruct (monitor_split _ _ _ _ _ M) as [_ [a1 [_ M2]]]. cbn [xgstep] in M2.
+  destruct (passive_keeps _ _ _ _ _ Hp M2) as [g' C].
+  destruct l as [d' st' vis unv res|q k|q k c|q|d'|slot comm vidx r| |d' st']; simpl in C; try (left; exact I); try discriminate.
+  right. apply andb_true_iff in C. destruct C as [C _]. apply andb_true_iff in C. destruct C as [C1 C2].
+  apply duty_eqb_eq in C1. subst d'. assert (st = st') by (destruct st, st'; try discriminate; reflexivity). subst st'.
+  exists vis, unv, res. reflexivity.
+Qed.
+
+(* ---- no lost wake-up, on the state ---- *)
+Theorem stale_only_after_failed_store ls s a : run xinit ls = Some (s, a) ->
+  forall q k, In (q, k) (pend s) -> lookup k (vals (st_db s)) <> None -> In (k_kind k) (g_dirty (ghost_after ginit ls)).
+Proof. intros H q k. apply (a7 _ _ _ (run_inv _ _ _ H)). Qed.
+
+Theorem no_lost_wakeup_store pre t sl vis unv res s a kd :
+  run xinit (pre ++ [LStore (t, sl) Scheduled vis unv res]) = Some (s, a) ->
   kind_of_dt t = Some kd -> resolved_res res = true ->
   forall q k, In (q, k) (pend s) -> k_kind k = kd -> lookup k (vals (st_db s)) = None.
 Proof.
@@ -1094,8 +1208,8 @@ Proof.
   apply drop_kind_In in P. destruct P as [_ P]. contradiction.
 Qed.
 
-Theorem no_lost_wakeup_await pre q0 k0 s :
-  run init (pre ++ [LAwaitReg q0 k0]) = Some s ->
+Theorem no_lost_wakeup_await pre q0 k0 s a :
+  run xinit (pre ++ [LAwaitReg q0 k0]) = Some (s, a) ->
   forall q k, In (q, k) (pend s) -> k_kind k = k_kind k0 -> lookup k (vals (st_db s)) = None.
 Proof.
   intros H q k Hin Hkd. destruct (lookup k (vals (st_db s))) eqn:E; [|reflexivity]. exfalso.
@@ -1190,11 +1304,12 @@ Proof.
 Qed.
 
 (* a set containing a datum that conflicts with what is stored is rejected with an error ... *)
-Theorem clash_is_error s t sl vis unv res s' :
-  step s (LStore (t, sl) Scheduled vis unv res) = Some s' ->
+Theorem clash_is_error s a t sl vis unv res s' a' :
+  step (s, a) (LStore (t, sl) Scheduled vis unv res) = Some (s', a') ->
   forall e, In e vis -> conflicts t e (st_db s) -> exists er, res = Some er /\ resolved_res res = false.
 Proof.
-  cbv beta iota delta [step step_gen]. intros H e He C.
+  intro H. apply step_store_inv in H. destruct H as [H _]. revert H.
+  cbv beta iota delta [core_step]. intros H e He C.
   destruct (kind_of_dt t) as [kd|] eqn:Ek.
   - destruct (dtype_eqb t DPro && Nat.ltb 1 (length (vis ++ unv))).
     + destruct (res_eqb res (Some ELen) && nil_entries vis) eqn:E; [|discriminate].
@@ -1210,12 +1325,13 @@ Qed.
 
 (* ... and a Store that returns such an error wakes nobody, consumes no expiry, and changes the maps
    only by ADDING keys that were absent, with data of the visited entries (partial effects) *)
-Theorem error_only_adds s t sl vis unv res s' :
-  step s (LStore (t, sl) Scheduled vis unv res) = Some s' -> resolved_res res = false ->
+Theorem error_only_adds s a t sl vis unv res s' a' :
+  step (s, a) (LStore (t, sl) Scheduled vis unv res) = Some (s', a') -> resolved_res res = false ->
   pend s' = pend s /\ outbox s' = outbox s /\ expq s' = expq s /\
   ext (flat_map (offers_v t) vis) (flat_map (offers_pk t) vis) (flat_map (offers_b t) vis) (st_db s) (st_db s').
 Proof.
-  cbv beta iota delta [step step_gen]. intros H Hr.
+  intro H. apply step_store_inv in H. destruct H as [H _]. revert H.
+  cbv beta iota delta [core_step]. intros H Hr.
   assert (Same : Some s = Some s' -> pend s' = pend s /\ outbox s' = outbox s /\ expq s' = expq s /\
      ext (flat_map (offers_v t) vis) (flat_map (offers_pk t) vis) (flat_map (offers_b t) vis) (st_db s) (st_db s')).
   { intro E. injection E as <-. repeat split; try reflexivity; auto. }
@@ -1233,11 +1349,12 @@ Proof.
 Qed.
 
 (* no Store, successful or not, ever replaces the value stored under a key (it may delete it on expiry) *)
-Theorem store_never_replaces s d st vis unv res s' :
-  step s (LStore d st vis unv res) = Some s' ->
+Theorem store_never_replaces s a d st vis unv res s' a' :
+  step (s, a) (LStore d st vis unv res) = Some (s', a') ->
   forall k v v', lookup k (vals (st_db s)) = Some v -> lookup k (vals (st_db s')) = Some v' -> v' = v.
 Proof.
-  destruct d as [t sl]. cbv beta iota delta [step step_gen]. intros H k v v' H1 H2.
+  intro H. apply step_store_inv in H. destruct H as [H _]. revert H.
+  destruct d as [t sl]. cbv beta iota delta [core_step]. intros H k v v' H1 H2.
   assert (Same : Some s = Some s' -> v' = v) by (intro E; injection E as <-; congruence).
   destruct st; try (destruct (res_eqb res (Some ERefused) && nil_entries vis); [apply Same; exact H|discriminate]).
   destruct (kind_of_dt t) as [kd|] eqn:Ek.
@@ -1260,57 +1377,78 @@ Qed.
 Definition demo_trace : list label := [
   LAwaitReg 1 (K KAtt 5 1 0); LQuiet; LAwaitReg 2 (K KAtt 5 1 0); LQuiet; LAwaitReg 3 (K KAtt 5 0 0); LQuiet;
   LAwaitReg 4 (K KAtt 5 2 0); LQuiet;
-  LStore (DAtt, 5) Scheduled [EAtt 1 5 5 1 1 10 7 8] [] None;
+  LAdd (DAtt, 5) Scheduled; LStore (DAtt, 5) Scheduled [EAtt 1 5 5 1 1 10 7 8] [] None;
   LAnswer 1 (K KAtt 5 1 0) 10; LAnswer 2 (K KAtt 5 1 0) 10; LAnswer 3 (K KAtt 5 0 0) 10; LQuiet;
-  LStore (DAtt, 5) Scheduled [EAtt 2 5 5 2 2 11 7 8; EAtt 1 5 5 1 1 12 7 8] [] (Some EClashAtt); LQuiet;
+  LAdd (DAtt, 5) Scheduled; LStore (DAtt, 5) Scheduled [EAtt 2 5 5 2 2 11 7 8; EAtt 1 5 5 1 1 12 7 8] [] (Some EClashAtt); LQuiet;
   LPubKey 5 2 2 (Some 2);
   LAwaitReg 5 (K KAtt 5 0 0); LAnswer 4 (K KAtt 5 2 0) 11; LAnswer 5 (K KAtt 5 0 0) 10; LQuiet;
   LAwaitReg 6 (K KPro 5 0 0); LQuiet; LCancel 6; LQuiet;
   LExpire (DAtt, 5); LQuiet;
-  LStore (DPro, 6) Scheduled [EPro 6 1 20] [] None; LQuiet;
-  LStore (DAtt, 5) Expired [] [EAtt 1 5 5 1 1 13 7 8] (Some ERefused); LQuiet;
+  LAdd (DPro, 6) Scheduled; LStore (DPro, 6) Scheduled [EPro 6 1 20] [] None; LQuiet;
+  LAdd (DAtt, 5) Expired; LStore (DAtt, 5) Expired [] [EAtt 1 5 5 1 1 13 7 8] (Some ERefused); LQuiet;
   LPubKey 5 2 2 None;
   LAwaitReg 7 (K KAtt 5 1 0); LQuiet ].
 
-Lemma demo_accepted : (exists s, run init demo_trace = Some s) /\ monitor demo_trace = true /\ disciplined demo_trace = true.
+Lemma demo_accepted : (exists s, run xinit demo_trace = Some s) /\ monitor demo_trace = true /\ disciplined demo_trace = true.
 Proof. split; [eexists; vm_compute; reflexivity|split; vm_compute; reflexivity]. Qed.
 
 (* F2: before the repair an aggregate with the same key (same data root) but other aggregation
    bits replaced the stored one; two readers of the same key got different data *)
 Definition f2_trace : list label := [
-  LStore (DAgg, 2) Scheduled [EAgg 2 1 1 2] [] None; LQuiet;
+  LAdd (DAgg, 2) Scheduled; LStore (DAgg, 2) Scheduled [EAgg 2 1 1 2] [] None; LQuiet;
   LAwaitReg 1 (K KAgg 2 1 1); LAnswer 1 (K KAgg 2 1 1) 2; LQuiet;
-  LStore (DAgg, 2) Scheduled [EAgg 2 1 1 3] [] None; LQuiet;
+  LAdd (DAgg, 2) Scheduled; LStore (DAgg, 2) Scheduled [EAgg 2 1 1 3] [] None; LQuiet;
   LAwaitReg 2 (K KAgg 2 1 1); LAnswer 2 (K KAgg 2 1 1) 3; LQuiet ].
 
 Lemma answers_unique_agg_refuted_before_fix :
-  (exists s, run_gen true init f2_trace = Some s) /\ disciplined f2_trace = true /\ monitor f2_trace = false
-  /\ run init f2_trace = None.
+  (exists s, run_gen true xinit f2_trace = Some s) /\ disciplined f2_trace = true /\ monitor f2_trace = false
+  /\ run xinit f2_trace = None.
 Proof. split; [eexists; vm_compute; reflexivity|repeat split; vm_compute; reflexivity]. Qed.
 
 (* Uniqueness across an expiry rests on the deadliner (C16) and the caller: if a duty that was
    emitted on C() is Scheduled again, other data is accepted and served for the same key. *)
 Definition undisciplined_trace : list label := [
-  LStore (DPro, 3) Scheduled [EPro 3 1 10] [] None; LQuiet;
+  LAdd (DPro, 3) Scheduled; LStore (DPro, 3) Scheduled [EPro 3 1 10] [] None; LQuiet;
   LAwaitReg 1 (K KPro 3 0 0); LAnswer 1 (K KPro 3 0 0) 10; LQuiet;
   LExpire (DPro, 3); LQuiet;
-  LStore (DPro, 4) Scheduled [] [] None; LQuiet;
-  LStore (DPro, 3) Scheduled [EPro 3 2 11] [] None; LQuiet;
+  LAdd (DPro, 4) Scheduled; LStore (DPro, 4) Scheduled [] [] None; LQuiet;
+  LAdd (DPro, 3) Scheduled; LStore (DPro, 3) Scheduled [EPro 3 2 11] [] None; LQuiet;
   LAwaitReg 2 (K KPro 3 0 0); LAnswer 2 (K KPro 3 0 0) 11; LQuiet ].
 
 Lemma answers_unique_needs_discipline :
-  (exists s, run init undisciplined_trace = Some s) /\ disciplined undisciplined_trace = false.
+  (exists s, run xinit undisciplined_trace = Some s) /\ disciplined undisciplined_trace = false.
 Proof. split; [eexists; vm_compute; reflexivity|vm_compute; reflexivity]. Qed.
+
+(* The deadline verdict and the write are one atomic step.  If they were not (deadliner.Add before
+   taking the lock), this history would be possible: the second Store of the attester duty gets the
+   verdict Scheduled BEFORE the duty expires, another Store then processes the expiry (deleting X),
+   and only then the second Store writes Y: accepted although it conflicts with data already served,
+   and the key is answered X, then Y.  The history is disciplined (the verdict came before the
+   expiry); the model refuses it (at the second LAdd) and the monitor rejects it. *)
+Definition race_trace : list label := [
+  LAdd (DAtt, 5) Scheduled; LStore (DAtt, 5) Scheduled [EAtt 1 5 5 1 1 10 7 8] [] None; LQuiet;
+  LAwaitReg 1 (K KAtt 5 1 0); LAnswer 1 (K KAtt 5 1 0) 10; LQuiet;
+  LAdd (DAtt, 5) Scheduled;                      (* Store(Y): verdict *)
+  LExpire (DAtt, 5);                             (* the deadline passes *)
+  LAdd (DPro, 9) Scheduled; LStore (DPro, 9) Scheduled [EPro 9 1 20] [] None;   (* another Store drains the expiry *)
+  LStore (DAtt, 5) Scheduled [EAtt 1 5 5 1 1 11 7 8] [] None; LQuiet;           (* Store(Y): write *)
+  LAwaitReg 2 (K KAtt 5 1 0); LAnswer 2 (K KAtt 5 1 0) 11; LQuiet ].
+
+Lemma verdict_write_race_rejected :
+  run xinit race_trace = None /\ monitor race_trace = false /\ disciplined race_trace = true /\
+  first_violation xginit race_trace 0 = Some 8%nat.
+Proof. repeat split; vm_compute; reflexivity. Qed.
 
 (* ---------- what "disciplined" says, in words ---------- *)
 Definition Disciplined (ls : list label) : Prop :=
-  forall pre d vis unv res post, ls = pre ++ LStore d Scheduled vis unv res :: post ->
-    ~ In (LExpire d) pre /\ forall e, In e vis -> entry_slots_ok (snd d) e = true.
+  (forall pre d post, ls = pre ++ LAdd d Scheduled :: post -> ~ In (LExpire d) pre) /\
+  (forall pre d vis unv res post, ls = pre ++ LStore d Scheduled vis unv res :: post ->
+     forall e, In e vis -> entry_slots_ok (snd d) e = true).
 
 Lemma dead_spec ls : forall g d, In d (g_dead (ghost_after g ls)) <-> In d (g_dead g) \/ In (LExpire d) ls.
 Proof.
   induction ls as [|l r IH]; intros g d; simpl; [tauto|]. rewrite IH.
-  destruct l as [d0 st vis unv res|q k|q k c|q|d0|slot comm vidx r0|]; simpl;
+  destruct l as [d0 st vis unv res|q k|q k c|q|d0|slot comm vidx r0| |da sta]; simpl;
     try (split; [intros [H|H]; [left; exact H|right; right; exact H] | intros [H|[H|H]]; [left; exact H|discriminate H|right; exact H]]).
   - assert (E : g_dead (gstep g (LStore d0 st vis unv res)) = g_dead g).
     { simpl. destruct st; try reflexivity. destruct (kind_of_dt (fst d0)); [destruct (resolved_res res)|]; reflexivity. }
@@ -1323,14 +1461,16 @@ Qed.
 Lemma disciplined_snoc ls l :
   disciplined (ls ++ [l]) =
   disciplined ls && match l with
-                    | LStore d Scheduled vis _ _ => negb (in_duties d (g_dead (ghost_after ginit ls))) && forallb (entry_slots_ok (snd d)) vis
+                    | LStore d Scheduled vis _ _ => forallb (entry_slots_ok (snd d)) vis
+                    | LAdd d Scheduled => negb (in_duties d (g_dead (ghost_after ginit ls)))
                     | _ => true
                     end.
 Proof.
   unfold disciplined. rewrite ghost_after_app. simpl.
-  destruct l as [d st vis unv res|q k|q k c|q|d|slot comm vidx r|]; simpl; try (rewrite andb_true_r; reflexivity).
-  destruct st; try (rewrite andb_true_r; reflexivity).
-  destruct (kind_of_dt (fst d)); [destruct (resolved_res res)|]; reflexivity.
+  destruct l as [d st vis unv res|q k|q k c|q|d|slot comm vidx r| |d st]; simpl; try (rewrite andb_true_r; reflexivity).
+  - destruct st; try (rewrite andb_true_r; reflexivity).
+    destruct (kind_of_dt (fst d)); [destruct (resolved_res res)|]; reflexivity.
+  - destruct st; reflexivity.
 Qed.
 
 Lemma snoc_split {A} (a : list A) x b y c :
@@ -1345,19 +1485,22 @@ Qed.
 Theorem disciplined_spec ls : disciplined ls = true <-> Disciplined ls.
 Proof.
   induction ls as [|l ls IH] using rev_ind.
-  - split; [|reflexivity]. intros _ pre d vis unv res post E. destruct pre; discriminate.
+  - split; [|reflexivity]. intros _. split; intros; destruct pre; discriminate.
   - rewrite disciplined_snoc, andb_true_iff, IH. split.
-    + intros [H1 H2] pre d vis unv res post E. apply snoc_split in E. destruct E as [[-> [-> ->]]|[c' [-> ->]]].
-      * apply andb_true_iff in H2. destruct H2 as [H2 H3]. split.
+    + intros [[H1 H1'] H2]. split.
+      * intros pre d post E. apply snoc_split in E. destruct E as [[-> [-> ->]]|[c' [-> ->]]].
         -- intro Hin. assert (In d (g_dead (ghost_after ginit pre))) by (apply dead_spec; right; exact Hin).
            apply in_duties_In in H. rewrite H in H2. discriminate.
-        -- intros e He. rewrite forallb_forall in H3. apply H3. exact He.
-      * eapply H1. reflexivity.
-    + intro H. split.
-      * intros pre d vis unv res post E. apply (H pre d vis unv res (post ++ [l])). rewrite E, <- app_assoc. reflexivity.
-      * destruct l as [d st vis unv res|q k|q k c|q|d|slot comm vidx r|]; try reflexivity. destruct st; try reflexivity.
-        destruct (H ls d vis unv res [] eq_refl) as [H1 H2]. apply andb_true_iff. split.
-        -- destruct (in_duties d (g_dead (ghost_after ginit ls))) eqn:E; [|reflexivity].
+        -- eapply H1. reflexivity.
+      * intros pre d vis unv res post E. apply snoc_split in E. destruct E as [[-> [-> ->]]|[c' [-> ->]]].
+        -- intros e He. rewrite forallb_forall in H2. apply H2. exact He.
+        -- eapply H1'. reflexivity.
+    + intros [H H']. split; [split|].
+      * intros pre d post E. apply (H pre d (post ++ [l])). rewrite E, <- app_assoc. reflexivity.
+      * intros pre d vis unv res post E. apply (H' pre d vis unv res (post ++ [l])). rewrite E, <- app_assoc. reflexivity.
+      * destruct l as [d st vis unv res|q k|q k c|q|d|slot comm vidx r| |d st]; try reflexivity; destruct st; try reflexivity.
+        -- apply forallb_forall. exact (H' ls d vis unv res [] eq_refl).
+        -- pose proof (H ls d [] eq_refl) as H1.
+           destruct (in_duties d (g_dead (ghost_after ginit ls))) eqn:E; [|reflexivity].
            apply in_duties_In in E. apply dead_spec in E. destruct E as [[]|E]. contradiction.
-        -- apply forallb_forall. exact H2.
 Qed.
